@@ -56,6 +56,7 @@ var fromInterp = map[int]int{
 	interp.HkLexBefore: LexBefore, interp.HkLexAfter: LexAfter, interp.HkRunStart: RunStart, interp.HkRunExitBegin: RunExitBegin,
 	interp.HkRunExitEnd: RunExitEnd, interp.HkEmitBefore: EmitBefore, interp.HkEmitAfter: EmitAfter, interp.HkEmitCancel: EmitCancel,
 	interp.HkSpawn: Spawn, interp.HkError: Error, interp.HkCancelClosed: CancelClosed, interp.HkEvalExit: Exit,
+	interp.HkJoinBefore: JoinBefore, interp.HkJoinAfter: JoinAfter,
 }
 
 // current is the scheduler in charge, or nil (goroutines run freely).
@@ -136,26 +137,27 @@ func goid() uintptr {
 
 // Sched is one controlled run.
 type Sched struct {
-	mu           sync.Mutex
-	byG          map[uintptr]*party
-	order        []*party
-	parserOf     map[uintptr]uintptr
-	lexerOf      map[uintptr]uintptr
-	seq          map[uintptr]int
-	cancelled    map[uintptr]bool
-	buffered     map[uintptr]bool // a here-document wake-up is waiting in the channel
-	pending      int              // spawned goroutines that have not reached their first hook
-	choices      []int
-	sizes        []int // sizes of the choice sets met
-	nchoice      int
-	trace        []string
-	keepTrace    bool
-	changed      chan struct{}
-	main         uintptr // goroutine that called the entry point
-	exited       bool    // the entry point has passed its Exit hook
-	nevents      int     // hook calls so far
-	aliveAtExit  []string
-	lateHandOver []string // tokens handed over by a lexer whose parser had already failed and cancelled it
+	mu            sync.Mutex
+	byG           map[uintptr]*party
+	order         []*party
+	parserOf      map[uintptr]uintptr
+	lexerOf       map[uintptr]uintptr
+	seq           map[uintptr]int
+	cancelled     map[uintptr]bool
+	selfCancelled map[uintptr]bool // cancelled by the lexer goroutine itself
+	buffered      map[uintptr]bool // a here-document wake-up is waiting in the channel
+	pending       int              // spawned goroutines that have not reached their first hook
+	choices       []int
+	sizes         []int // sizes of the choice sets met
+	nchoice       int
+	trace         []string
+	keepTrace     bool
+	changed       chan struct{}
+	main          uintptr // goroutine that called the entry point
+	exited        bool    // the entry point has passed its Exit hook
+	nevents       int     // hook calls so far
+	aliveAtExit   []string
+	lateHandOver  []string // tokens handed over by a lexer whose parser had already failed and cancelled it
 }
 
 // New returns a scheduler that follows the given choices (index into the set
@@ -163,7 +165,7 @@ type Sched struct {
 func New(choices []int, keepTrace bool) *Sched {
 	return &Sched{
 		byG: map[uintptr]*party{}, parserOf: map[uintptr]uintptr{}, lexerOf: map[uintptr]uintptr{}, seq: map[uintptr]int{},
-		cancelled: map[uintptr]bool{}, buffered: map[uintptr]bool{}, choices: choices, keepTrace: keepTrace, changed: make(chan struct{}, 1),
+		cancelled: map[uintptr]bool{}, selfCancelled: map[uintptr]bool{}, buffered: map[uintptr]bool{}, choices: choices, keepTrace: keepTrace, changed: make(chan struct{}, 1),
 	}
 }
 
@@ -272,6 +274,10 @@ func (s *Sched) hook(id uintptr, point int) {
 	if point == Error || point == CancelClosed {
 		if point == CancelClosed {
 			s.cancelled[id] = true
+			if g, ok := s.lexerOf[id]; ok && g == goid() {
+				// the lexer stopped itself (an error of its own)
+				s.selfCancelled[id] = true
+			}
 			if l := s.lookup(id, roleLexer); l != nil && l.st == stBlocked && l.at == EmitBefore {
 				l.expected = true
 			}
@@ -297,6 +303,7 @@ func (s *Sched) hook(id uintptr, point int) {
 		// lexer that is gone; forget what was known about that one
 		delete(s.lexerOf, id)
 		delete(s.cancelled, id)
+		delete(s.selfCancelled, id)
 		delete(s.buffered, id)
 		s.pending++
 		p.st = stRunning
@@ -367,7 +374,7 @@ func (s *Sched) hook(id uintptr, point int) {
 		s.mu.Unlock()
 		return
 	case EmitAfter:
-		if s.cancelled[id] {
+		if s.cancelled[id] && !s.selfCancelled[id] {
 			// nobody in go.sh asks a cancelled lexer for a token: whoever took
 			// this one lets the lexer run on over input the parser never saw
 			s.lateHandOver = append(s.lateHandOver, fmt.Sprintf("L%d", s.seq[id]))
